@@ -12,6 +12,8 @@
    bytes beyond the live length are unobservable. *)
 Require Import Tac ListN Utf8 Attrs Cell Row Grid Screen Vte Perform Parser Term Emit.
 Require Import RowInv GridInv TextInv ScreenInv EmitSafe ObsSpec CellBytes.
+Require CellWf WfInv.
+Notation screen_wf := CellWf.screen_wf (only parsing).
 Open Scope N_scope.
 
 (* ------------------------------------------------------------------------------------------ *)
@@ -96,7 +98,7 @@ Proof. exact ObsSpec.C19_canonical. Qed.
 (* "not on the history that produced it": two histories (byte input, resizes, scrollback
    changes, in any interleaving) from any well-formed parser *)
 Theorem C19_histories : forall p ops1 ops2 p1 p2 o,
-  parser_ok p -> Forall op_ok ops1 -> Forall op_ok ops2 ->
+  parser_ok p -> screen_wf (scr p) -> Forall op_ok ops1 -> Forall op_ok ops2 ->
   run p ops1 = Ok p1 -> run p ops2 = Ok p2 ->
   obs (scr p1) = Ok o -> obs (scr p2) = Ok o ->
   contents_formatted_t (scr p1) = contents_formatted_t (scr p2) /\
@@ -109,11 +111,12 @@ Theorem C19_histories : forall p ops1 ops2 p1 p2 o,
   input_mode_diff_t (scr p1) (scr p2) = [] /\
   (forall start width, rows_diff_t (scr p1) (scr p2) start width = Ok (repeatN [] (grows (cur (scr p1))))).
 Proof.
-  intros p ops1 ops2 p1 p2 o H F1 F2 R1 R2 O1 O2.
+  intros p ops1 ops2 p1 p2 o H W F1 F2 R1 R2 O1 O2.
+  pose proof (WfInv.run_wf_strong ops1 p p1 H W F1 R1) as W1.
   destruct (run_ok ops1 p H F1) as (q1 & E1 & K1). destruct (run_ok ops2 p H F2) as (q2 & E2 & K2).
   rewrite R1 in E1. rewrite R2 in E2. inv E1. inv E2. unfold parser_ok in K1, K2.
   destruct (ObsSpec.C19_factor _ _ o K1 K2 O1 O2) as (A1 & A2 & A3 & A4 & A5 & A6).
-  destruct (C19_obsdiff _ _ o K1 K2 O1 O2) as (B1 & B2 & B3 & B4).
+  destruct (C19_obsdiff _ _ o K1 W1 K2 O1 O2) as (B1 & B2 & B3 & B4).
   repeat apply conj; assumption.
 Qed.
 
@@ -128,14 +131,14 @@ Proof. exact row_diff_self. Qed.
 
 (* a screen against itself; a clone is the same value, so this is also "against its clone".
    rows_diff returns one empty string per visible row. *)
-Theorem C19_selfdiff : forall s, screen_ok s ->
+Theorem C19_selfdiff : forall s, screen_ok s -> screen_wf s ->
   contents_diff_t s s = Ok [] /\
   state_diff_t s s = Ok [] /\
   input_mode_diff_t s s = [] /\
   (forall start width, rows_diff_t s s start width = Ok (repeatN [] (grows (cur s)))).
 Proof. exact ObsSpec.C19_selfdiff. Qed.
 
-Theorem C19_selfdiff_bytes : forall s, screen_ok s ->
+Theorem C19_selfdiff_bytes : forall s, screen_ok s -> screen_wf s ->
   res_map ser_all (contents_diff_t s s) = Ok [] /\
   res_map ser_all (state_diff_t s s) = Ok [] /\
   ser_all (input_mode_diff_t s s) = [] /\
@@ -143,7 +146,7 @@ Theorem C19_selfdiff_bytes : forall s, screen_ok s ->
 Proof. exact ObsSpec.C19_selfdiff_bytes. Qed.
 
 (* any two observationally equal screens *)
-Theorem C19_obsdiff : forall s1 s2 o, screen_ok s1 -> screen_ok s2 -> obs s1 = Ok o -> obs s2 = Ok o ->
+Theorem C19_obsdiff : forall s1 s2 o, screen_ok s1 -> screen_wf s1 -> screen_ok s2 -> obs s1 = Ok o -> obs s2 = Ok o ->
   contents_diff_t s1 s2 = Ok [] /\
   state_diff_t s1 s2 = Ok [] /\
   input_mode_diff_t s1 s2 = [] /\
@@ -153,12 +156,12 @@ Proof. exact ObsSpec.C19_obsdiff. Qed.
 (* what is really needed: the invariant of the first screen only, and only for contents_diff /
    state_diff (the one checked addition "cursor row + 1" inside MoveFromTo) *)
 Theorem C19_obsdiff_minimal : forall s1 s2 o, obs s1 = Ok o -> obs s2 = Ok o ->
-  (screen_ok s1 -> contents_diff_t s1 s2 = Ok [] /\ state_diff_t s1 s2 = Ok []) /\
+  (screen_ok s1 -> screen_wf s1 -> contents_diff_t s1 s2 = Ok [] /\ state_diff_t s1 s2 = Ok []) /\
   input_mode_diff_t s1 s2 = [] /\
   (forall start width, rows_diff_t s1 s2 start width = Ok (repeatN [] (len (o_vis o)))).
 Proof.
   intros s1 s2 o H1 H2. repeat apply conj.
-  - intros K. split; [eapply contents_diff_obs|eapply state_diff_obs]; eassumption.
+  - intros K W. split; [eapply contents_diff_obs|eapply state_diff_obs]; eassumption.
   - eapply input_mode_diff_obs; eassumption.
   - intros start width. eapply rows_diff_obs; eassumption.
 Qed.
